@@ -229,7 +229,7 @@ pub fn run_c16(ctx: &mut Ctx) {
     }
     let n = ctx.budget(6000, 300000);
     for i in 0..n {
-        let len = ctx.rng.random_range(0..=if i % 10 == 0 { 30 } else { 9 });
+        let len = ctx.rng.random_range(0..=if i % 300 == 5 { 1200 } else if i % 10 == 0 { 30 } else { 9 });
         let lens: Vec<u64> = (0..len)
             .map(|_| {
                 let r = ctx.rng.random_range(0..100);
